@@ -130,7 +130,7 @@ impl Driver for C17 {
         "C17"
     }
     fn units(&self, tier: Tier) -> usize {
-        tier.pick(1600, 32000)
+        tier.pick(1600, 200000)
     }
     fn run_unit(&self, ctx: &Ctx, out: &mut UnitOut, _start: usize, only: Option<usize>) {
         let mut rng = unit_rng(ctx, "C17", out.unit);
